@@ -147,9 +147,11 @@ def isIndexSelection (cfg : Cfg) : Sel → Bool
     | some t => cfg.kind t == .index || cfg.kind t == .data   -- (every such select is itself required to be confined)
     | none => false
 
-/-- … or it only re-shapes such a selection (reads from an alias already known to be one) -/
+/-- … or it only re-shapes such a selection: it reads from an alias already known to be one, or un-nests an
+    array column of such an alias (`FROM a ARRAY JOIN a.span_id AS …`: every row comes from a row of `a`) -/
 def derivesFrom (ok : List Alias) : Sel → Bool
   | .mk _ _ _ (some (.withRef a)) _ _ _ _ _ _ _ => ok.contains a
+  | .mk _ _ _ (some (.arrayJoin (.withRef a) _)) _ _ _ _ _ _ _ => ok.contains a
   | _ => false
 
 def withsConfined (cfg : Cfg) (w : Window) : List Alias → List (Alias × Sel) → Bool
